@@ -99,6 +99,16 @@ CHECKS = {
             "Threads are serialised at gate granularity (races inside a segment are not explored); RandomState seeds and ASLR are "
             "chosen by the OS and only sampled by the process matrix; the working directory is treated as an input.",
             "6/C11"),
+    "C12": ("fault_enumeration",
+            "exhaustive single-line mutation (delete / duplicate / swap at every line) of repository headers classified by the "
+            "clang binary, depth sweeps 1..200 in four nesting families, every option row x header, and an enumerated list of "
+            "input-path faults; each executed on the real generator in watchdog-supervised worker processes",
+            "Every mutant, depth, option row and fault case is executed under catch_unwind with a per-job timeout and address-space "
+            "cap in a worker process (death, stack overflow or hang is attributed to the job); accepted inputs must yield bindings, "
+            "rejected ones Err(ClangDiagnostic) carrying clang's message, path faults their specific error variant.",
+            "Acceptance oracle is the clang 14 binary with the same arguments (-fno-spell-checking), calibrated per header on the "
+            "unmutated text; splice and identifier-substitution operators of the design are not built; quick tier takes every 16th header.",
+            "6/C12"),
 }
 
 NOT_YET = "check not built yet in this round (see DESIGN.md section 10a for the plan)"
